@@ -714,15 +714,23 @@ def mgda(index, ctx, A, by_class):
     if ast.dump(inl) != ast.dump(fi.node):
         fi = _copy.copy(fi)
         fi.node = inl
-    from ..normalize import flag_while_to_for
+    from ..normalize import counter_while_to_for, flag_while_to_for
 
     fi = _copy.copy(fi)
-    fi.node = flag_while_to_for(fi.node)  # a deep copy (the rule rewrites the loop body in place when it folds idioms: never on the shared tree); `while not done and next(it, None) is not None` read as the for loop it is
+    fi.node = counter_while_to_for(flag_while_to_for(fi.node))  # a deep copy (the rule rewrites the loop body in place when it folds idioms: never on the shared tree); `while not done and next(it, None) is not None` read as the for loop it is
     loops_ = [n for n in ast.walk(fi.node) if isinstance(n, ast.For)]
     if len(loops_) != 1:
         ctx.undecided("R5", "MGDA: Frank-Wolfe loop", f"expected one loop, found {len(loops_)}", fi.loc())
         return
     loop = loops_[0]
+    # the loop makes max_iters steps: range(<something>) from 0 — `range(1, max_iters)` (or a counter started at 1) makes one step fewer, none at all
+    # for max_iters = 1, and the first step is the one that is exact for two rows
+    it_ = loop.iter
+    if isinstance(it_, ast.Call) and isinstance(it_.func, ast.Name) and it_.func.id == "range":
+        starts_at_zero = len(it_.args) == 1 or (len(it_.args) >= 2 and isinstance(it_.args[0], ast.Constant) and it_.args[0].value == 0)
+        ctx.require(starts_at_zero and len(it_.args) <= 2, "R5", "MGDA: the loop makes max_iters Frank-Wolfe steps", f"`{norm_text(it_)}`",
+                    f"the loop runs over `{norm_text(it_)}`: fewer steps than max_iters (with max_iters = 1 no step at all, so the uniform starting point is returned — for two rows that is the mean, "
+                    "not the minimum-norm point of the segment)", _loc(fi, loop))
     all_ups = [s for s in ast.walk(loop) if isinstance(s, ast.Assign) and isinstance(s.targets[0], ast.Name) and s.targets[0].id in names_read(s.value)]
     carried = sorted({s.targets[0].id for s in all_ups})
     # the iterate must not become an alias of a buffer that the loop overwrites in place (`alpha = e_t` with `e_t.zero_()` in the next iteration)
